@@ -614,6 +614,37 @@ pub fn run(repo: &PathBuf, out: &PathBuf) -> R<()> {
     v += "(* the trait method delegates to this body and the cursor is created over block4 with the type's own code *)\nDefinition layout_entry_ok : list (bytes * bool) := [\n  ";
     v += &names.iter().map(|(n, b)| format!("({}, {})", cq(n), b)).collect::<Vec<_>>().join(";\n  ");
     v += "\n].\n";
+    // the option letters the cursor looks for (detect_variant, detect_variant_optional, peek_field_variant)
+    let mp = parse_file(&src(repo, "parser/message_parser.rs"))?;
+    for (fname, cname) in [("detect_variant", "cursor_letters_req"), ("detect_variant_optional", "cursor_letters_opt"), ("peek_field_variant", "cursor_letters_peek")] {
+        let f = one_fn(&mp, fname, Some("MessageParser"), "message_parser.rs")?;
+        let t = tokens(f.block);
+        // first `vec ! [ "A" , ... ]` or `[ 'A' , ... ]` literal list of one-letter items
+        let mut letters: Vec<String> = Vec::new();
+        let b: Vec<char> = t.chars().collect();
+        let mut i = 0;
+        while i < b.len() {
+            if b[i] == '[' {
+                let mut j = i + 1;
+                let mut cur = Vec::new();
+                let mut ok = true;
+                loop {
+                    while j < b.len() && (b[j] == ' ' || b[j] == ',') { j += 1; }
+                    if j < b.len() && b[j] == ']' { break; }
+                    if j + 2 < b.len() && (b[j] == '"' || b[j] == '\'') && b[j + 1].is_ascii_uppercase() && b[j + 2] == b[j] {
+                        cur.push(b[j + 1].to_string());
+                        j += 3;
+                    } else { ok = false; break; }
+                }
+                if ok && !cur.is_empty() { letters = cur; break; }
+            }
+            i += 1;
+        }
+        if letters.is_empty() {
+            return Err(format!("message_parser.rs: no option-letter list found in {fname}"));
+        }
+        v += &format!("\nDefinition {cname} : list bytes := {}.\n", cq_list(&letters));
+    }
     write_out(out, "Layouts.v", &v)?;
     write_out(out, "layouts.json", &serde_json::to_string(&serde_json::Value::Object(js)).unwrap())?;
     Ok(())
